@@ -438,7 +438,7 @@ fn main() {
     let prop = Property {
         id: "C10",
         level: "exploration",
-        rule: "random operation scripts (add / publish / remove / set_complete over 1..8 objects with hostile metadata strings, per-object OTI overrides for all schemes, every cache-control variant, session and object groups, FDT cenc, both publish modes, fdt_start_id incl. just below the 2^20 wrap, durations 2 s..3 d, virtual time across several expiry periods) are run on the real sender; every emitted FDT instance is reassembled by the independent decoder and judged: ids consecutive mod 2^20, one content per id, Expires = publish second + duration, listing = model set (built from the operation log and Start/Stop events) in force at the publish second, every attribute equal to what the sender was given after parsing with expat (pychk/fdt_check.py), XSD validation with xmllint, fdt_received XML identical; supersession is judged on dedicated expiry workloads polled every 50 ms; a case is one script, non-trivial when at least one complete instance was observed; distinct = discretised script shape; receiver_listing: every object listed by an instance flute's receiver got before the object's first packet is found by it (new_object_writer called), TOIs up to 112 bits",
+        rule: "random operation scripts (add / publish / remove / set_complete over 1..8 objects with hostile metadata strings, per-object OTI overrides for all schemes, every cache-control variant, session and object groups, FDT cenc, both publish modes, fdt_start_id incl. just below the 2^20 wrap, durations 2 s..3 d, virtual time across several expiry periods) are run on the real sender; every emitted FDT instance is reassembled by the independent decoder and judged: ids consecutive mod 2^20, one content per id, Expires = publish second + duration, listing = model set (built from the operation log and Start/Stop events) in force at the publish second, every attribute equal to what the sender was given after parsing with expat (pychk/fdt_check.py), XSD validation with xmllint, fdt_received XML identical; supersession is judged on dedicated expiry workloads polled every 50 ms; a case is one script, non-trivial when at least one complete instance was observed; distinct = discretised script shape; receiver_listing: every object listed by an instance flute's receiver got before the object's first packet is found by it (new_object_writer called), TOIs up to 112 bits; failed_publish: refused publications (instance larger than the session OTI can carry, Raptor block of 2-3 symbols) between accepted ones take no instance id",
         assumptions: vec![
             "order of File elements is free".into(),
             "an FDT instance without any File element (empty listing) is schema-invalid by construction of the RFC 6726 schema; XSD validity is only judged for instances listing at least one file (well-formedness and all other checks still apply)".into(),
